@@ -119,8 +119,12 @@ func vfRunHistory(r *vfRun, cfg *vfExploreCfg, hist []string, judgeAll bool, lea
 // vfExplore runs the breadth-first search for one scenario.
 func vfExplore(r *vfRun, cfg *vfExploreCfg) {
 	seen := map[string]struct{}{}
+	nv0 := r.totalViolations()
 	canon0, obs0, en0, p0 := vfRunHistory(r, cfg, nil, true, false)
 	r.res.Executions++
+	if p0 != "" && strings.Contains(p0, "blocked goroutines remain") && r.totalViolations() > nv0 {
+		return // the execution already reported why goroutines are stuck
+	}
 	if p0 != "" {
 		r.violation("panic:"+vfPanicFingerprint(p0), "panic building initial state: "+vfFirstLine(p0), vfCase{Scenario: cfg.Scenario, Name: cfg.Name})
 		return
@@ -214,6 +218,34 @@ func vfExplore(r *vfRun, cfg *vfExploreCfg) {
 		}
 		frontier = next
 		depthDone = depth
+	}
+	// leaf events are applied at EVERY discovered state, including those found at the last depth
+	if len(cfg.Leaf) > 0 {
+		for _, n := range frontier {
+			for _, ev := range cfg.Leaf {
+				if r.outOfTime() {
+					r.res.Bounds["depth_completed:"+cfg.Name] = depthDone
+					return
+				}
+				h := append(append(make([]string, 0, len(n.hist)+1), n.hist...), ev)
+				c := vfCase{Scenario: cfg.Scenario, Name: cfg.Name, Events: h}
+				r.mark(c)
+				nvBefore := r.totalViolations()
+				_, obs, _, p := vfRunHistory(r, cfg, h, false, true)
+				r.unmark()
+				r.res.Executions++
+				r.res.Transitions++
+				if p != "" && strings.Contains(p, "blocked goroutines remain") && r.totalViolations() > nvBefore {
+					r.count("executions_ending_with_stuck_goroutines", 1)
+					continue
+				}
+				if p != "" {
+					r.violation("panic:"+vfPanicFingerprint(p), "panic: "+vfFirstLine(p), c)
+					continue
+				}
+				r.outcome(obs)
+			}
+		}
 	}
 	r.res.Bounds["depth_completed:"+cfg.Name] = depthDone
 	if len(frontier) == 0 {
